@@ -1,0 +1,9 @@
+//go:build verif
+
+// Contracts for the deductive verifier in /verif (govc). Comment-only.
+
+package assets
+
+//@ func IsValid(v string) (r bool)
+//@   property C25 C28 C38
+//@   ensures r == validAsset(v)
